@@ -53,7 +53,7 @@ FUNCTIONS = {
   'SingletonPoolSink._Get': dict(
     cls='SingletonPoolSink', returns='Channel?', conc='Singleton', may_yield=True,
     requires=[], ensures=[],
-    modifies=['MessageSink._next', 'SingletonPoolSink.g_creates', 'SingletonPoolSink.g_drops', 'Channel.g_opens',
+    modifies=['Observable.g_nsubs', 'MessageSink._next', 'SingletonPoolSink.g_creates', 'SingletonPoolSink.g_drops', 'Channel.g_opens',
               'SingletonPoolSink._ref_count', 'Channel.state', 'Channel.g_closes'],
     allocates=True,
     yields=[{'at': 'self.next_sink.Open().wait()'}, {'at': 'self._Get()'}],
@@ -69,7 +69,7 @@ FUNCTIONS = {
   'SingletonPoolSink.Close': dict(
     cls='SingletonPoolSink', conc='Singleton',
     requires=[], ensures=['implies(old(self._next is not None and self._ref_count <= 1), self._next is None)'],
-    modifies=['MessageSink._next', 'SingletonPoolSink._ref_count', 'SingletonPoolSink.g_drops', 'Channel.state', 'Channel.g_closes'],
+    modifies=['Observable.g_nsubs', 'MessageSink._next', 'SingletonPoolSink._ref_count', 'SingletonPoolSink.g_drops', 'Channel.state', 'Channel.g_closes'],
     ghost=[{'after': 'sink, self.next_sink = (self.next_sink, None)', 'do': ['self.g_drops = self.g_drops + 1']}],
     props=['C16'],
   ),
@@ -114,7 +114,7 @@ FUNCTIONS.update({
     file='scales/pool/watermark.py', cls='WatermarkPoolSink', params={'sink': 'Channel'},
     requires=[], ensures=['sink.g_closes == old(sink.g_closes) + 1',
                           'forall_ref(c, Channel, implies(c != sink, c.g_closes == old(c.g_closes) and c.state == old(c.state)), c.g_closes)'],
-    modifies=['Channel.state', 'Channel.g_closes'],
+    modifies=['Observable.g_nsubs', 'Channel.state', 'Channel.g_closes'],
     props=['C07'],
   ),
   'WatermarkPoolSink._Dequeue': dict(
@@ -165,7 +165,7 @@ FUNCTIONS.update({
       'implies(is_real_sink(result), result in self.g_lent)',
       'implies(dyn_is(result, QueuingMessageSink), fresh(result))',
     ],
-    modifies=['deque[Channel]', 'WatermarkPoolSink._current_size', 'set[any]', 'Channel.state', 'Channel.g_opens', 'Channel.g_closes',
+    modifies=['Observable.g_nsubs', 'deque[Channel]', 'WatermarkPoolSink._current_size', 'set[any]', 'Channel.state', 'Channel.g_opens', 'Channel.g_closes',
               'Channel.on_faulted', 'FailingMessageSink._ex', 'QueuingMessageSink._queue', 'ClientMessageSink._on_faulted', 'MessageSink._next', '$cls'],
     allocates='any',
     # only the request a connection is lent to gives it back: it stays lent while we wait for it to open
@@ -221,7 +221,7 @@ FUNCTIONS.update({
       # retained connections: cached only at or below the low watermark
       'implies(len(self._cache) > old(len(self._cache)), self._current_size <= self._min_size)',
     ],
-    modifies=['deque[Channel]', 'WatermarkPoolSink._current_size', 'WatermarkPoolSink._state', 'set[any]',
+    modifies=['Observable.g_nsubs', 'deque[Channel]', 'WatermarkPoolSink._current_size', 'WatermarkPoolSink._state', 'set[any]',
               'Channel.state', 'Channel.g_closes', 'deque[tuple[AnySink,any]]', 'AnySink.g_invoked',
               'MethodReturnMessage.error', 'MethodReturnMessage.return_value', 'MethodReturnMessage.stack',
               'FailingMessageSink._ex', 'ClientMessageSink._on_faulted', 'MessageSink._next', '$cls'],
